@@ -273,6 +273,48 @@ func genHostname(rng *rand.Rand) string {
 	return h
 }
 
+// hosts that contain the separator "://" or pieces of it, also inside square
+// brackets (where net.SplitHostPort lets ':' and '/' through), and nested brackets
+var sepHosts = []string{"[://]", "[a://b]", "[x://y://z]", "[tcp://1.2.3.4]", "[://", "://]", "[:/]", "[//]", "[/]", "[:]", "[::/]", "[:/:]",
+	"[a:/b]", "[a//b]", "[a:b://c]", "[://]]", "[[://]", "[[a]]", "[a[b]c]", "[a]b]", "[[]]", "[][]", "[]://[]", "a://b", "://", ":/", "//", "/", "a:/b", "a//b",
+	"tcp://1.2.3.4", "tcp://", "[tcp://]", "[::1://]", "[://::1]", "[1.2.3.4://]", "[epfl.ch://x]"}
+
+var sepPieces = []string{"://", ":/", "//", "/", ":", "[", "]", "[[", "]]", "[://]", "://://", "tcp://"}
+
+var injectBases = []string{"tcp://1.2.3.4:80", "tls://[::1]:2000", "local://epfl.ch:7770", "tcp://[localhost]:65535", "tcp://:0", "tls://[a:b]:1"}
+
+// genInjected puts every separator piece at every position of a few good
+// addresses: before the type, inside it, inside the separator, inside the host
+// (and its brackets), before and after the port.
+func genInjected() []string {
+	var out []string
+	for _, b := range injectBases {
+		for i := 0; i <= len(b); i++ {
+			for _, pc := range sepPieces {
+				out = append(out, b[:i]+pc+b[i:])
+			}
+		}
+	}
+	return out
+}
+
+// allStrings enumerates every string over alphabet of length 0..max.
+func allStrings(alphabet string, max int) []string {
+	out := []string{""}
+	level := []string{""}
+	for l := 1; l <= max; l++ {
+		var next []string
+		for _, w := range level {
+			for i := 0; i < len(alphabet); i++ {
+				next = append(next, w+alphabet[i:i+1])
+			}
+		}
+		out = append(out, next...)
+		level = next
+	}
+	return out
+}
+
 // genHost returns the host as written inside a host:port
 func genHost(rng *rand.Rand) string {
 	switch rng.Intn(16) {
@@ -288,6 +330,9 @@ func genHost(rng *rand.Rand) string {
 		return "[" + pick(rng, []string{genIPv4(rng), genHostname(rng), "", "[::1]", "a]b", "a:b", "::1]:[80"}) + "]"
 	case 10:
 		return pick(rng, []string{"[", "]", "[]", "[::1", "::1]", "[[::1]]", "[::1]]", "[::1]x", "x[::1]", "[a", "a]", "a[b]"})
+	case 11:
+		// the type/address separator, its pieces and brackets inside the host
+		return pick(rng, sepHosts)
 	default:
 		return genHostname(rng)
 	}
@@ -348,7 +393,7 @@ func genGoodAddr(rng *rand.Rand) string {
 	case 5:
 		h = pick(rng, []string{"localhost", "conode1", "epfl.ch", "a.b.example.org", "EPFL.CH", "epfl.ch."})
 	case 6:
-		h = "[" + pick(rng, []string{"localhost", "1.2.3.4", "epfl.ch"}) + "]"
+		h = "[" + pick(rng, []string{"localhost", "1.2.3.4", "epfl.ch", "a://b", "://", "a:/b", "::1://", "a[b"}) + "]"
 	default:
 		h = genIPv4(rng)
 	}
@@ -372,7 +417,11 @@ func mutate(rng *rand.Rand, s string) string {
 		if rng.Intn(6) == 0 {
 			c = byte(rng.Intn(256))
 		}
-		switch op := rng.Intn(4); {
+		switch op := rng.Intn(5); {
+		case op == 4: // insert a separator piece
+			i := rng.Intn(len(b) + 1)
+			pc := sepPieces[rng.Intn(len(sepPieces))]
+			b = append(b[:i:i], append([]byte(pc), b[i:]...)...)
 		case op == 0 && len(b) > 0: // delete
 			i := rng.Intn(len(b))
 			b = append(b[:i:i], b[i+1:]...)
@@ -403,7 +452,11 @@ func genBytes(rng *rand.Rand, max int) string {
 }
 
 func genArbitraryAddr(rng *rand.Rand) string {
-	switch rng.Intn(4) {
+	switch rng.Intn(6) {
+	case 4:
+		return pick(rng, goodTypes) + "://" + randFrom(rng, ":/[]a0.", rng.Intn(9)) + ":" + genPort(rng)
+	case 5:
+		return randFrom(rng, "tcp:/[]0a.", rng.Intn(14))
 	case 0:
 		return genBytes(rng, 24)
 	case 1:
@@ -505,6 +558,25 @@ func generate(rng *rand.Rand, tier string) []interface{} {
 	}
 	for i := 0; i < 300*scale; i++ {
 		add(mk("addr", "bytes", genArbitraryAddr(rng)))
+	}
+	// the separator and its pieces at every position of good addresses
+	for _, a := range genInjected() {
+		add(mk("addr", "injected", a))
+	}
+	// exhaustive: every short string over the structural alphabet, bare and as
+	// the network address (with and without a good port) behind a good type
+	{
+		rawLen, naAlpha, naLen := 3, ":/[]a", 5
+		if tier != "quick" {
+			rawLen, naAlpha, naLen = 4, ":/[]a0.", 5
+		}
+		for _, w := range allStrings("tcp:/[]0a.", rawLen) {
+			add(mk("addr", "exh-raw", w))
+		}
+		for _, w := range allStrings(naAlpha, naLen) {
+			add(mk("addr", "exh-na", "tcp://"+w))
+			add(mk("addr", "exh-na", "tls://"+w+":0"))
+		}
 	}
 	// all boundary ports on a fixed host; in the thorough tier every port -1..70000
 	if tier == "quick" {
@@ -682,6 +754,14 @@ func corpus() []interface{} {
 		mk2("listen", "corpus", "tcp://1.2.3.4:2000", "[abc", false),
 		mk2("listen", "corpus", "tcp://1.2.3.4:2000", "abc]", false),
 		mk2("listen", "corpus", "tcp://1.2.3.4:2000", "[::1]", false),
+	}
+	// more than one separator: Valid, ConnType and NetworkAddress each split the
+	// address themselves and must split it the same way (seeded change B)
+	for _, a := range []string{"tcp://[://]:80", "tls://[a://b]:2000", "tcp://[x://y://z]:65535", "local://[://://]:0",
+		"tcp://tcp://1.2.3.4:80", "tcp://1.2.3.4:80://", "tcp://1.2.3.4://80", "://tcp://1.2.3.4:80", "tcp://://:80", "tcp://[//]:80", "tcp://[:/]:80"} {
+		c = append(c, mk("addr", "corpus-multisep", a))
+		c = append(c, mk2("listen", "corpus-multisep", a, "", false))
+		c = append(c, mk2("ws", "corpus-multisep", a, "", false))
 	}
 	// the table of network/address_test.go and struct/tcp tests as regression inputs
 	for _, a := range []string{"tls://10.0.0.4:2000", "tcp://10.0.0.4:2000", "tcp://67.43.129.85:2000", "tls://[::]:1000", "tls4://10.0.0.4:2000",
